@@ -114,6 +114,40 @@ func c16Check(env *core.Env, cc core.Case) core.Verdict {
 	}
 	ft := targets[idx]
 	tree := p.tree()
+	if c.Fault == "faulty-last-include" {
+		// the faulty file is the very last one of the walk (an include file): however the work on the files is
+		// scheduled, every run reports the failure and leaves the file alone
+		faulty := "regex-assembly/include/zz-faulty.ra"
+		tree[faulty] = core.Pick(rand.New(rand.NewSource(int64(len(targets)))), "word\n##!<\n", "##!+ x\nword\n", "##!> include inc1 -- a\n")
+		if c.Cmd == "format-check-all" {
+			tree[faulty] = "      not formatted\n"
+		}
+		if err := tree.Write(root); err != nil {
+			return core.Incon("cannot write tree: %v", err)
+		}
+		v := core.Verdict{Status: core.Held, Nontrivial: true, Features: []string{"fault:" + c.Fault, "cmd:" + c.Cmd}, Counts: map[string]int{}}
+		args := []string{"regex", "format", "--all"}
+		if c.Cmd == "format-check-all" {
+			args = []string{"regex", "format", "--check", "--all"}
+		}
+		for k := 0; k < 25; k++ {
+			r := cli(env, root, nil, args...)
+			if r.Class() == sut.ClassTimeout {
+				return core.Incon("watchdog hit, not judged: %s", describe(r))
+			}
+			if r.Class() == sut.ClassFault {
+				return core.Viol("crash:"+c.Fault, "%v crashed: %s", args, describe(r))
+			}
+			if r.Exit == 0 {
+				return core.Viol("exit0:"+c.Fault+":"+c.Cmd, "run %d of %v: exit status 0 although the last file of the walk (%s) is %s", k+1, args, faulty, map[bool]string{true: "not formatted", false: "refused"}[c.Cmd == "format-check-all"])
+			}
+			if got, _ := sut.Read(root, faulty); got != tree[faulty] {
+				return core.Viol("modifies-faulty-unit:"+c.Fault, "run %d of %v rewrote the faulty file", k+1, args)
+			}
+			v.Counts["repeated_runs"]++
+		}
+		return v
+	}
 	arg := ft.Key
 	var stdin []byte
 	_, isSource := c16SourceFaults[c.Fault]
@@ -380,6 +414,9 @@ func c16Cases(env *core.Env, rng *rand.Rand) []core.Case {
 					}
 				}
 			}
+		}
+		for _, cmd := range []string{"format-all", "format-check-all"} {
+			cs = append(cs, &c16Case{Proj: p, Fault: "faulty-last-include", Pos: "n/a", Cmd: cmd, Which: "first"})
 		}
 		for _, fault := range c16TreeFaults {
 			switch fault {
